@@ -164,7 +164,7 @@ pub fn run(case: &str, input: &str) -> String {
         return "bad-case".into();
     };
     let (Some(ea), Some(eb)) = (parse_tree(a), parse_tree(b)) else { return "bad-case".into() };
-    let tmp = TempDir::new("c04");
+    let tmp = Scratch::new("c04");
     let (da, db, dw) = (tmp.path().join("a"), tmp.path().join("b"), tmp.path().join("w"));
     if materialise(&da, &ea).is_err() || materialise(&db, &eb).is_err() || materialise(&dw, &ea).is_err() {
         return "bad-case".into();
